@@ -57,6 +57,11 @@ func argD(n *Node, val any) D {
 	}
 	rv := reflect.ValueOf(val)
 	want := n.GoType()
+	if rv.Kind() == reflect.Pointer && rv.Type().Elem() != want && rv.Type().Elem() == n.GoTypeAlt() {
+		want = n.GoTypeAlt()
+	} else if rv.Type() != want && rv.Type() == n.GoTypeAlt() {
+		want = n.GoTypeAlt()
+	}
 	if rv.Kind() == reflect.Pointer && rv.Type().Elem() == want {
 		if rv.IsNil() {
 			return D{K: "nilarg"}
@@ -116,6 +121,43 @@ func reusedTest(n *Node, t TestSpec, rec *Recorder) z.Test {
 		o(&cp)
 	}
 	return cp
+}
+
+// rawTest: a test written as a raw z.Test{Func: ...} that reports its failure ITSELF through
+// ctx.AddIssue(ctx.Issue()...) (docs: custom-tests), filling the issue exactly as the options would
+func rawTest(n *Node, t TestSpec, rec *Recorder) z.Test {
+	pred := fnTest(n, t, rec)
+	o := t.Opts
+	return z.Test{Func: func(val any, ctx z.Ctx) {
+		if pred(val, ctx) {
+			return
+		}
+		iss := ctx.Issue()
+		if o.Code != nil {
+			iss.SetCode(*o.Code)
+		}
+		if o.Path != nil && *o.Path != "" {
+			iss.SetPath(*o.Path)
+		}
+		if o.HasParams {
+			m := map[string]any{}
+			for _, kv := range o.Params {
+				m[kv[0]] = kv[1]
+			}
+			iss.SetParams(m)
+		}
+		if o.Msg != nil {
+			iss.SetMessage(*o.Msg)
+		}
+		ctx.AddIssue(iss)
+	}}
+}
+
+func builtTest(n *Node, t TestSpec, rec *Recorder) z.Test {
+	if t.Raw {
+		return rawTest(n, t, rec)
+	}
+	return reusedTest(n, t, rec)
 }
 
 func fnTest(n *Node, t TestSpec, rec *Recorder) z.BoolTFunc {
@@ -317,8 +359,8 @@ func buildNum[T int | int32 | int64 | float64 | float32](s *z.NumberSchema[T], n
 			}
 			s.OneOf(xs, o...)
 		case "fn":
-			if t.Reuse {
-				s.Test(reusedTest(n, t, rec))
+			if t.Reuse || t.Raw {
+				s.Test(builtTest(n, t, rec))
 			} else {
 				s.TestFunc(fnTest(n, t, rec), o...)
 			}
@@ -368,8 +410,8 @@ func build1(n *Node, rec *Recorder) z.ZogSchema {
 			for _, t := range n.Tests {
 				o := t.Opts.zopts()
 				if t.Name == "fn" {
-					if t.Reuse {
-						s.Test(reusedTest(n, t, rec))
+					if t.Reuse || t.Raw {
+						s.Test(builtTest(n, t, rec))
 					} else {
 						s.TestFunc(fnTest(n, t, rec), o...)
 					}
@@ -452,8 +494,8 @@ func build1(n *Node, rec *Recorder) z.ZogSchema {
 						s.EQ(t.Arg.B)
 					}
 				case "fn":
-					if t.Reuse {
-						s.Test(reusedTest(n, t, rec))
+					if t.Reuse || t.Raw {
+						s.Test(builtTest(n, t, rec))
 					} else {
 						s.TestFunc(fnTest(n, t, rec), t.Opts.zopts()...)
 					}
@@ -496,8 +538,8 @@ func build1(n *Node, rec *Recorder) z.ZogSchema {
 						s.EQ(t.Arg.T, o...)
 					}
 				case "fn":
-					if t.Reuse {
-						s.Test(reusedTest(n, t, rec))
+					if t.Reuse || t.Raw {
+						s.Test(builtTest(n, t, rec))
 					} else {
 						s.TestFunc(fnTest(n, t, rec), o...)
 					}
@@ -538,8 +580,8 @@ func build1(n *Node, rec *Recorder) z.ZogSchema {
 			case "slcontains":
 				s.Contains(dGoValue(t.Arg), o...)
 			case "fn":
-				if t.Reuse {
-					s.Test(reusedTest(n, t, rec))
+				if t.Reuse || t.Raw {
+					s.Test(builtTest(n, t, rec))
 				} else {
 					s.TestFunc(fnTest(n, t, rec), o...)
 				}
@@ -588,8 +630,8 @@ func build1(n *Node, rec *Recorder) z.ZogSchema {
 			if t.Name != "fn" {
 				panic("struct test " + t.Name)
 			}
-			if t.Reuse {
-				s.Test(reusedTest(n, t, rec))
+			if t.Reuse || t.Raw {
+				s.Test(builtTest(n, t, rec))
 			} else {
 				s.TestFunc(fnTest(n, t, rec), t.Opts.zopts()...)
 			}
